@@ -40,6 +40,7 @@ struct LoopCollector {
     closures: Vec<Value>,
     calls: Vec<Value>,
     macros: Vec<Value>,
+    all_stmts: Vec<Value>,
 }
 impl<'ast> Visit<'ast> for LoopCollector {
     fn visit_expr_for_loop(&mut self, n: &'ast syn::ExprForLoop) {
@@ -81,6 +82,11 @@ impl<'ast> Visit<'ast> for LoopCollector {
             "method_span":sp(n.method.span())}));
         syn::visit::visit_expr_method_call(self, n);
     }
+    fn visit_stmt(&mut self, n: &'ast syn::Stmt) {
+        let (s, e) = range_of(n);
+        self.all_stmts.push(json!([s, e]));
+        syn::visit::visit_stmt(self, n);
+    }
     fn visit_macro(&mut self, n: &'ast syn::Macro) {
         self.macros.push(json!({"path":toks(&n.path),"span":sp_of(n)}));
         syn::visit::visit_macro(self, n);
@@ -112,7 +118,7 @@ fn fn_entry(
         (r.start, r.end)
     };
     let start = item_start(attrs, whole).min(ws);
-    let mut lc = LoopCollector { loops: vec![], closures: vec![], calls: vec![], macros: vec![] };
+    let mut lc = LoopCollector { loops: vec![], closures: vec![], calls: vec![], macros: vec![], all_stmts: vec![] };
     let mut stmts = vec![];
     let mut tail = false;
     let (bs, be) = if let Some(b) = block {
@@ -154,7 +160,7 @@ fn fn_entry(
         "params":params,
         "body_start":bs,"body_end":be,
         "has_body": block.is_some(),
-        "loops":lc.loops,"closures":lc.closures,"calls":lc.calls,"macros":lc.macros,"stmts":stmts,"tail_expr":tail,
+        "loops":lc.loops,"closures":lc.closures,"calls":lc.calls,"macros":lc.macros,"stmts":stmts,"tail_expr":tail,"all_stmts":lc.all_stmts,
         "constness": sig.constness.is_some(),
     }));
 }
